@@ -80,17 +80,23 @@ class NotAnalysed(Exception):
 def ensure_facts(profile='debug', repo=REPO):
     """returns directory holding rdest-rlib.json / rdest-executable.json for the current tree"""
     os.makedirs(CACHE, exist_ok=True)
-    lock = open(os.path.join(CACHE, 'lock'), 'w')
+    # self-test campaigns analyse many scratch trees at once: each worker may use its own build directory (slot)
+    slot = os.environ.get('VERIF_TARGET_SLOT', '')
+    th = tree_hash(repo)
+    out = os.path.join(CACHE, 'facts', '%s-%s' % (th, profile))
+    lib = os.path.join(out, 'rdest-rlib.json')
+    if slot and os.path.exists(lib) and os.path.exists(os.path.join(out, 'ok')):
+        return out, th, True
+    lock = open(os.path.join(CACHE, 'lock' + slot), 'w')
     fcntl.flock(lock, fcntl.LOCK_EX)
     try:
         ensure_driver()
-        th = tree_hash(repo)
-        out = os.path.join(CACHE, 'facts', '%s-%s' % (th, profile))
-        lib = os.path.join(out, 'rdest-rlib.json')
         if os.path.exists(lib) and os.path.exists(os.path.join(out, 'ok')):
             return out, th, True
         os.makedirs(out, exist_ok=True)
-        target = os.path.join(CACHE, 'target-' + profile)
+        target = os.path.join(CACHE, 'target-' + profile + slot)
+        if slot and not os.path.isdir(target) and os.path.isdir(os.path.join(CACHE, 'target-' + profile)):
+            sh('cp -r %s %s' % (os.path.join(CACHE, 'target-' + profile), target))
         # cargo's freshness cache would skip the wrapper: drop the crate's own fingerprints
         fp = os.path.join(target, 'debug', '.fingerprint')
         if os.path.isdir(fp):
@@ -122,7 +128,8 @@ def ensure_facts(profile='debug', repo=REPO):
         # keep the cache small: drop fact dirs other than the 6 most recent
         base = os.path.join(CACHE, 'facts')
         ds = sorted((os.path.getmtime(os.path.join(base, d)), d) for d in os.listdir(base))
-        for _, d in ds[:-6]:
+        keep = int(os.environ.get('VERIF_FACTS_KEEP', '6'))
+        for _, d in ds[:-keep]:
             sh('rm -rf %s' % os.path.join(base, d))
         return out, th, False
     finally:
